@@ -33,16 +33,11 @@ def cli_check(solver, timeout_ms, want_model=False, opts=()):
 
 
 def guarded_check(solver, timeout_ms):
-    """solver.check() with a wall-clock watchdog: z3 sometimes ignores its own timeout inside preprocessing"""
-    timer = threading.Timer(timeout_ms / 1000.0 + 3.0, lambda: solver.ctx.interrupt())
-    timer.daemon = True
-    timer.start()
+    """solver.check() under the solver's own timeout (the slow path goes through cli_check, which has a hard limit)"""
     try:
         return solver.check()
     except z3.Z3Exception:
         return z3.unknown
-    finally:
-        timer.cancel()
 
 
 def _subterms(e, acc, seen):
